@@ -342,6 +342,22 @@ func TestVerifC06Transfer(t *testing.T) {
 			rec.Class("tamper-not-applicable/" + tm.Kind)
 			return
 		}
+		if x.NoRootDir && p.m.Root != "" && rapid.IntRange(0, 3).Draw(rt, "metadata_below_root") == 2 {
+			// the earlier attempt ran in root-directory mode: its metadata lies in
+			// <out>/<root>/.thruflux_resumedata, which this run consults as a fallback
+			moved := 0
+			for _, it := range p.fileItems() {
+				from := transfer.SidecarPath(p.baseDirOf(), "", it.ID)
+				to := transfer.SidecarPath(filepath.Join(p.out, p.m.Root), "", it.ID)
+				if _, err := os.Stat(from); err == nil && os.MkdirAll(filepath.Dir(to), 0755) == nil && os.Rename(from, to) == nil {
+					moved++
+				}
+			}
+			if moved > 0 {
+				rec.Class("metadata-below-the-manifest-root")
+				desc += " [metadata moved below the manifest root]"
+			}
+		}
 		var plan []perturb
 		if tm.Delay > 0 {
 			plan = append(plan, perturb{Site: "send.verify.hash.before", Hit: 1, Delay: time.Duration(tm.Delay) * time.Millisecond})
@@ -357,6 +373,13 @@ func TestVerifC06Transfer(t *testing.T) {
 		res := p.run(pair, 30*time.Second, 5*time.Second)
 		remove()
 		pair.Close()
+		if x.NoRootDir && p.m.Root != "" {
+			// the metadata directory below the manifest root (placed there by this harness) is not
+			// part of the received tree: take it, and the then empty root directory, away
+			below := filepath.Join(p.out, p.m.Root)
+			os.RemoveAll(filepath.Join(below, verifnet.ResumeDirName))
+			os.Remove(below) // fails, as it should, when the receiver put anything there
+		}
 		rec.Eval()
 		rec.Class("tamper/" + tm.Kind)
 		detail := fmt.Sprintf("tamper: %s | hash-delay=%dms | prior marks: %v | case: %s | %s", desc, tm.Delay, ps.Marked, x, res)
